@@ -43,6 +43,8 @@ type Scenario struct {
 	FO *FOScenario `json:"fo,omitempty"`
 	BE *BEScenario `json:"be,omitempty"`
 	TR *TRScenario `json:"tr,omitempty"`
+
+	Hash *HashScenario `json:"hash,omitempty"`
 }
 
 // Violation is one oracle rule broken in a run.
@@ -322,6 +324,12 @@ func execute(t *testing.T, sc *Scenario, trace bool) (out *RunOut) {
 			out.Internal = fmt.Sprintf("panic outside bubble: %v", r)
 		}
 	}()
+
+	if sc.Engine == "hash" {
+		runHash(sc, out)
+
+		return out
+	}
 
 	synctest.Test(t, func(_ *testing.T) {
 		runInBubble(sc, out, trace)
